@@ -149,4 +149,20 @@ theorem frun_toFree {E : Type} (ops : List (Op E)) (c : Config E) :
   | nil => rfl
   | cons op ops ih => simp [frun, run, fstep_toFree, ih]
 
+/-! ### command lines -/
+
+/-- what `parse_args` does to the module state for accepted options -/
+theorem applyOpts_accepted {E : Type} (perr : E) : ∀ (opts : List CliOpt) (t : State E),
+    (∀ o ∈ opts, o = .strict ∨ o = .other) →
+    applyOpts perr t opts = ({ t with strict := (if CliOpt.strict ∈ opts then true else t.strict) }, none) := by
+  intro opts
+  induction opts with
+  | nil => intro t _; simp [applyOpts]
+  | cons o os ih =>
+    intro t h
+    have hos : ∀ o ∈ os, o = .strict ∨ o = .other := fun o ho => h o (by simp [ho])
+    rcases h o (by simp) with rfl | rfl
+    · rw [applyOpts, ih _ hos]; simp [setStrict]
+    · rw [applyOpts, ih _ hos]; simp
+
 end Pybtex.Errors
